@@ -610,6 +610,9 @@ class Sim:
 
     def __init__(self, modules, top, blackboxes=(), inputs=None):
         self.undefined_events = 0      # operations with an undefined (x) result; the harness discards such runs
+        self.current = None
+        self.guard = False             # domain guard of property C02 (see check_domain)
+        self.domain_violations = 0
         self.x_as_zero = 0             # constant selects reaching outside the declared range read 0 for those bits
         self.mods = {}
         for m in modules:
@@ -739,8 +742,12 @@ class Sim:
             return
         old = s.value
         s.value = v
+        cur = self.current
         for p in s.readers:
-            self.schedule(p)
+            # a process is not sensitive to its own assignments while it executes (it waits at its event control
+            # only after it ran to the end), so an always @(*) block that writes and reads a variable does not loop
+            if p is not cur:
+                self.schedule(p)
         if s.edge_procs:
             o, n = old & 1, v & 1
             for p in s.edge_procs:
@@ -749,7 +756,8 @@ class Sim:
 
     def mem_changed(self, s):
         for p in s.readers:
-            self.schedule(p)
+            if p is not self.current:
+                self.schedule(p)
 
     def settle(self):
         n = 0
@@ -770,6 +778,13 @@ class Sim:
                     self.store(sc, lv, val, idx)
 
     def run(self, p):
+        self.current = p if p.kind == 'star' else None
+        try:
+            self._run(p)
+        finally:
+            self.current = None
+
+    def _run(self, p):
         k = p.kind
         sc = p.scope
         if k == 'assign':
@@ -794,6 +809,9 @@ class Sim:
             for x in s[1]:
                 self.exec_stmt(sc, x)
         elif k == 'if':
+            if self.guard:
+                cw, cs = self.size(sc, s[1])
+                self.check_domain(sc, s[1], cw, cs)
             if self.eval_self(sc, s[1]) != 0:
                 self.exec_stmt(sc, s[2])
             elif s[3] is not None:
@@ -952,7 +970,124 @@ class Sim:
     def eval_assign(self, sc, e, lhs_width):
         w, s = self.size(sc, e)
         W = max(w, lhs_width)
+        if self.guard:
+            self.check_domain(sc, e, W, s)
         return self.eval(sc, e, W, s) & mask(lhs_width)
+
+    # ---- domain guard (property C02): does every node of the expression, evaluated with the sizes and types the
+    # standard gives it, equal the value of the same node over unbounded integers?  A carry, a borrow or a sign lost
+    # by sizing makes the two differ: the input is then outside the domain in which Python and Verilog can agree.
+    def ideal(self, sc, e):
+        k = e[0]
+        if k in ('num', 'id', 'index', 'part', 'cat', 'rep', 'sysf'):
+            w, s = self.size(sc, e)
+            v = self.operand(sc, e, w)
+            return self.sval(v, w) if s else v
+        if k == 'un':
+            op = e[1]
+            v = self.ideal(sc, e[2])
+            if op == '!':
+                return int(v == 0)
+            if op == '-':
+                return -v
+            if op == '~':
+                return ~v
+            if op == '+':
+                return v
+            return self.eval_self(sc, e)          # reductions: defined on the pattern
+        if k == 'bin':
+            op = e[1]
+            a, b = self.ideal(sc, e[2]), self.ideal(sc, e[3])
+            if op == '&&':
+                return int(a != 0 and b != 0)
+            if op == '||':
+                return int(a != 0 or b != 0)
+            if op in ('==', '==='):
+                return int(a == b)
+            if op in ('!=', '!=='):
+                return int(a != b)
+            if op == '<':
+                return int(a < b)
+            if op == '<=':
+                return int(a <= b)
+            if op == '>':
+                return int(a > b)
+            if op == '>=':
+                return int(a >= b)
+            if op == '+':
+                return a + b
+            if op == '-':
+                return a - b
+            if op == '*':
+                return a * b
+            if op in ('/', '%'):
+                if b == 0:
+                    raise Undefined('division by zero')
+                q = abs(a) // abs(b)
+                if (a < 0) != (b < 0):
+                    q = -q
+                return q if op == '/' else a - q * b
+            if op in ('<<', '<<<'):
+                if b < 0 or b > 4096:
+                    raise Undefined('shift amount')
+                return a << b
+            if op in ('>>', '>>>'):
+                if b < 0:
+                    raise Undefined('shift amount')
+                return a >> b
+            if op == '&':
+                return a & b
+            if op == '|':
+                return a | b
+            if op == '^':
+                return a ^ b
+            return self.eval_self(sc, e)
+        if k == 'tern':
+            return self.ideal(sc, e[2]) if self.ideal(sc, e[1]) != 0 else self.ideal(sc, e[3])
+        raise VSimError('ideal: ' + str(k))
+
+    def check_domain(self, sc, e, W, S):
+        try:
+            self._check_node(sc, e, W, S)
+        except Undefined:
+            pass
+
+    def _check_node(self, sc, e, W, S):
+        k = e[0]
+        r = self.eval(sc, e, W, S)
+        sized = self.sval(r, W) if S else r
+        if sized != self.ideal(sc, e):
+            self.domain_violations += 1
+            return
+        if k == 'un':
+            if e[1] in ('-', '~', '+'):
+                self._check_node(sc, e[2], W, S)
+            else:
+                w, s = self.size(sc, e[2])
+                self._check_node(sc, e[2], w, s)
+        elif k == 'bin':
+            op = e[1]
+            if op in ('&&', '||'):
+                for x in (e[2], e[3]):
+                    w, s = self.size(sc, x)
+                    self._check_node(sc, x, w, s)
+            elif op in ('==', '!=', '===', '!==', '<', '<=', '>', '>='):
+                wa, sa = self.size(sc, e[2])
+                wb, sb = self.size(sc, e[3])
+                self._check_node(sc, e[2], max(wa, wb), sa and sb)
+                self._check_node(sc, e[3], max(wa, wb), sa and sb)
+            elif op in ('<<', '>>', '<<<', '>>>'):
+                self._check_node(sc, e[2], W, S)
+                w, s = self.size(sc, e[3])
+                self._check_node(sc, e[3], w, s)
+            else:
+                self._check_node(sc, e[2], W, S)
+                self._check_node(sc, e[3], W, S)
+        elif k == 'tern':
+            w, s = self.size(sc, e[1])
+            self._check_node(sc, e[1], w, s)
+            self._check_node(sc, e[2], W, S)
+            self._check_node(sc, e[3], W, S)
 
     @staticmethod
     def ext(v, w, signed, W):
